@@ -693,9 +693,19 @@ class StructureVisitor(ASTTemplate):
                     nullable = old.nullable if calc_role != Role.IDENTIFIER else False
                     comps[col] = self._make_comp(old.name, old.data_type, calc_role, nullable)
                 elif col not in comps and output_ds and col in output_ds.components:
-                    comps[col] = output_ds.components[col]
+                    out_comp = output_ds.components[col]
+                    if out_comp.role != calc_role:
+                        # same name in the statement's result, another role there (e.g. the measure
+                        # an outer unpivot creates): keep the role written in this clause
+                        out_comp = self._make_comp(
+                            col, out_comp.data_type, calc_role, calc_role != Role.IDENTIFIER
+                        )
+                    comps[col] = out_comp
                 elif col not in comps:
-                    comps[col] = self._make_comp(col, Number)
+                    # the type is a guess, the role is not: unpivot, keep … look at it
+                    comps[col] = self._make_comp(
+                        col, Number, calc_role, calc_role != Role.IDENTIFIER
+                    )
         return Dataset(name=input_ds.name, components=comps, data=None)
 
     def _build_ds_ds_binop_structure(self, node: AST.BinOp) -> Optional[Dataset]:
@@ -766,8 +776,15 @@ class StructureVisitor(ASTTemplate):
             for name, comp in input_ds.components.items()
             if comp.role == Role.IDENTIFIER and name in kept_ids
         }
+        # role given in the clause (aggr attribute X := …), measure when none is written
+        roles: Dict[str, Role] = {}
+        for assignment in self._iter_assignments(node.children):
+            written = getattr(assignment.left, "role", None)
+            if isinstance(written, Role):
+                name = self._resolve_udo_name(self._resolve_name(assignment.left))
+                roles[name] = written
         for col_name in measure_names:
-            comps[col_name] = self._make_comp(col_name, Number)
+            comps[col_name] = self._make_comp(col_name, Number, roles.get(col_name, Role.MEASURE))
 
         return Dataset(name=input_ds.name, components=comps, data=None)
 
